@@ -1,33 +1,40 @@
 #!/usr/bin/env python3
-"""Generates /verif/MANIFEST.json from the table below (kept in one place so that the
-manifest, the not_applicable list and the registry of the checker stay in step)."""
-import json, subprocess, sys, os
+"""Generates /verif/MANIFEST.json. The set of claimed properties and their level text come
+from the checker's own registry (bin/mscheck -dump), so manifest and checker cannot drift;
+tools/claims.json adds the technique / trusted-base wording per property and
+tools/not_applicable.json the reasons for the properties static analysis cannot decide."""
+import json, subprocess, os, sys
 V = os.path.dirname(os.path.dirname(os.path.abspath(__file__)))
 props = [json.loads(l) for l in open(os.path.join(V, 'properties.jsonl'))]
 ids = [p['id'] for p in props]
-
-# id -> (level text, level note, technique)
+reg = json.loads(subprocess.check_output([os.path.join(V, 'bin', 'mscheck'), '-dump']))
 claims = json.load(open(os.path.join(V, 'tools', 'claims.json')))
 na = json.load(open(os.path.join(V, 'tools', 'not_applicable.json')))
-
+DEFAULT_NOTE = ("Trusted: go/types + go/packages + go/cfg (x/tools v0.29.0), the frozen anchor/gate/exception tables in checker/props_*.go "
+                "(an unresolved anchor or an instance count below the hand-confirmed floor FAILS the check), known_findings.json. "
+                "Decides structural necessary conditions only — all of them holding does not prove the behaviour.")
+DEFAULT_TECH = "static analysis: repository-specific rules over type-checked syntax (go/types), go/cfg path queries and a whole-module call graph"
 checks = []
 for i in ids:
-    if i in claims:
-        c = claims[i]
+    if i in reg and i not in na:
+        r = reg[i]
+        c = claims.get(i, {})
+        rules = ", ".join(x["id"] for x in r["rules"])
+        text = r["explanation"] + " Not covered: " + r["not_covered"]
         checks.append({
             "property_id": i,
             "quick_cmd": f"bin/mscheck -prop {i} -tier quick",
             "thorough_cmd": f"bin/mscheck -prop {i} -tier thorough",
             "evidence_file": f"/verif/evidence/{i}.json",
-            "replay_cmd_template": f"bin/mscheck -prop {i} -tier quick -replay {{path}}",
+            "replay_cmd_template": f"bin/mscheck -prop {i} -replay {{path}}",
             "engine": "mscheck",
-            "level_claimed": {"category": "other", "text": c["text"], "design_ref": c.get("design_ref", "DESIGN.md §4 " + i)},
-            "level_note": c["note"],
-            "technique": c["technique"],
+            "level_claimed": {"category": "other", "text": text, "design_ref": "DESIGN.md §4 " + i + " (rules " + rules + ")"},
+            "level_note": c.get("note", DEFAULT_NOTE),
+            "technique": c.get("technique", DEFAULT_TECH),
         })
 nas = []
 for i in ids:
-    if i not in claims:
+    if not any(c["property_id"] == i for c in checks):
         nas.append({"property_id": i, "reason": na.get(i, "not yet built: static rules for this property are planned in DESIGN.md §4 but no check is registered yet")})
 m = {
     "version": 1,
@@ -36,10 +43,10 @@ m = {
               "baseline_off_cmd": "cd /repo && GOFLAGS=-mod=mod GOPROXY=off go test -vet=off -count=1 ./...",
               "source_commits": [], "add_only": True},
     "engines": [{"name": "mscheck", "path": "/verif/checker", "serves_properties": [c["property_id"] for c in checks],
-                 "kind_free_text": "repository-specific static analyser (go/packages + go/types + go/cfg path queries + whole-module call graph); reads /repo's working tree on every run, executes nothing"}],
+                 "kind_free_text": "repository-specific static analyser (go/packages + go/types + go/cfg path queries + whole-module call graph); reads /repo's working tree on every run, executes nothing from it"}],
     "checks": checks,
     "not_applicable": nas,
-    "notes": "All claims are level 'other': each check decides structural necessary conditions of its property on every path / call site / table entry of the current source (see DESIGN.md §4 per property for what is and is not covered). Genuine defects found are either repaired by fix: commits in /repo or listed in known_findings.json.",
+    "notes": "All claims are level 'other': each check decides structural necessary conditions of its property on every path / call site / table entry of the current source (DESIGN.md §4 says per property what is and is not covered). Genuine defects found are either repaired by fix: commits in /repo or listed in known_findings.json. thorough = the same rules under three build configurations (default, with tests, GOARCH=386) plus the overlay-mutant self-test of the checker.",
 }
-json.dump(m, open(os.path.join(V, 'MANIFEST.json'), 'w'), indent=1)
+json.dump(m, open(os.path.join(V, 'MANIFEST.json'), 'w'), indent=1, ensure_ascii=False)
 print("checks:", len(checks), "not_applicable:", len(nas))
